@@ -28,7 +28,7 @@ type c09Case struct {
 	Ending   string // exit | raise | fault | sigsys | hostkill
 	N        int    // exit code or signal number
 	Fault    string
-	Children string // none | exits-first | killed | still-running | child-raises-benign
+	Children string // none | exits-first | killed | still-running | child-raises-benign | busy-child (a child the main process never reaps burns more CPU than the runner's time bound allows the program, then exits; the main process stays far below it)
 	M        int    // child's exit code / signal
 	// container runners: calls made on the same pooled environment right before this run (a verdict must not depend on
 	// what the environment was used for before): refuse-after (SyncAfterExec, callback refuses), refuse-before,
@@ -118,8 +118,12 @@ func c09Prelude(env container.Environment, kind string) error {
 		o.Ctx = ctx
 		time.AfterFunc(3*time.Millisecond, cancel)
 		defer cancel()
-	case "orphans":
-		for i := 0; i < 4; i++ {
+	case "orphans", "orphans-many":
+		n := 4
+		if kind == "orphans-many" {
+			n = 150 // reaping them takes the init a while: the next run starts meanwhile
+		}
+		for i := 0; i < n; i++ {
 			s.Add("fork{")
 			s.Add("sigign")
 			s.Add("sleep:100000")
@@ -139,7 +143,7 @@ func c09Prelude(env container.Environment, kind string) error {
 	if tr.Result.Status == runner.StatusRunnerError && tr.Result.Error == "" {
 		return vh.Violf("C09:runner-error-empty", "prelude %s: Runner Error without explanation", kind)
 	}
-	if kind == "orphans" && tr.Result.Status != runner.StatusNormal {
+	if (kind == "orphans" || kind == "orphans-many") && tr.Result.Status != runner.StatusNormal {
 		return vh.Violf("C09:misclassified/children", "prelude orphans (exit 0 leaving 4 children): got %q exit %d error %q", tr.Result.Status.String(), tr.Result.ExitStatus, tr.Result.Error)
 	}
 	return nil
@@ -188,6 +192,16 @@ func c09Run(c c09Case, ce *c09Env, rec *vh.Recorder) error {
 		s.Add(fmt.Sprintf("raise:%d", int(syscall.SIGUSR1)))
 		s.Add("}")
 		s.Add("waitn:1")
+	case "busy-child":
+		s.Add("fork{")
+		s.Add("spin:700")
+		s.Add("exit:0")
+		s.Add("}")
+		s.Add("sleep:1500") // the child's end is an event of the run while the main process is still there
+	}
+	var lim runner.Limit
+	if c.Children == "busy-child" {
+		lim = runner.Limit{TimeLimit: 300 * time.Millisecond, MemoryLimit: 1 << 30}
 	}
 	var filter seccomp.Filter
 	switch c.Ending {
@@ -250,9 +264,9 @@ func c09Run(c c09Case, ce *c09Env, rec *vh.Recorder) error {
 	var err error
 	switch c.Runner {
 	case "ptrace":
-		tr, err = runTraced(tracedOpts{Script: &s, Filter: filter, Handler: &recHandler{}, Tag: tag})
+		tr, err = runTraced(tracedOpts{Script: &s, Filter: filter, Handler: &recHandler{}, Tag: tag, Limit: lim})
 	case "unshare":
-		tr, err = runUnshare(sandboxOpts{Script: &s, Filter: filter, Tag: tag})
+		tr, err = runUnshare(sandboxOpts{Script: &s, Filter: filter, Tag: tag, Limit: lim})
 	default:
 		var env container.Environment
 		env, err = ce.get()
@@ -335,7 +349,7 @@ func c09Run(c c09Case, ce *c09Env, rec *vh.Recorder) error {
 	return nil
 }
 
-const c09Rule = "case = runner in {ptrace, namespace(unshare), container sync-before, container sync-after} x ending in {exit n (0..255), self-sent signal with default disposition (every terminating signal 1..64), real fault (SEGV/FPE/ILL/BUS/TRAP), SIGSYS from a kill-default filter, SIGKILL sent from the host} x children behaviour in {none, child exits m first, child killed by a signal, child still running and ignoring signals at exit, child dies of SIGUSR1} x (container runners) 0..3 earlier calls on the same pooled environment in {callback refuses after exec, callback refuses before exec, cancelled run, program that leaves 4 orphans}; oracle = README status table; " +
+const c09Rule = "case = runner in {ptrace, namespace(unshare), container sync-before, container sync-after} x ending in {exit n (0..255), self-sent signal with default disposition (every terminating signal 1..64), real fault (SEGV/FPE/ILL/BUS/TRAP), SIGSYS from a kill-default filter, SIGKILL sent from the host} x children behaviour in {none, child exits m first, child killed by a signal, child still running and ignoring signals at exit, child dies of SIGUSR1, an un-reaped child burns 700 ms CPU under a 300 ms runner time bound while the main process sleeps} x (container runners) 0..3 earlier calls on the same pooled environment in {callback refuses after exec, callback refuses before exec, cancelled run, program that leaves 4 or 150 orphans}; oracle = README status table; " +
 	"rows the kernel cannot produce (self-sent signals to a pid-namespace init; signals the container init leaves ignored) are counted as not-producible; non-trivial = non-zero exit, a signal, or children; the grid test enumerates runner x ending exhaustively (all 256 codes in the thorough tier)"
 
 func TestC09Grid(t *testing.T) {
@@ -385,7 +399,7 @@ func c09GenCase() func(rt *rapid.T) c09Case {
 	return func(rt *rapid.T) c09Case {
 		c := c09Case{Runner: rapid.SampledFrom(c09Runners).Draw(rt, "runner"),
 			Ending:   rapid.SampledFrom([]string{"exit", "exit", "raise", "raise", "fault", "sigsys", "hostkill"}).Draw(rt, "ending"),
-			Children: rapid.SampledFrom([]string{"none", "exits-first", "killed", "still-running", "child-raises-benign"}).Draw(rt, "children")}
+			Children: rapid.SampledFrom([]string{"none", "exits-first", "killed", "still-running", "child-raises-benign", "busy-child"}).Draw(rt, "children")}
 		switch c.Ending {
 		case "exit":
 			c.N = rapid.IntRange(0, 255).Draw(rt, "code")
@@ -414,7 +428,7 @@ func TestC09Random(t *testing.T) {
 		c := gen(rt)
 		if c.Runner == "container" || c.Runner == "container-after" {
 			for n := rapid.SampledFrom([]int{0, 0, 1, 2, 3}).Draw(rt, "npre"); n > 0; n-- {
-				c.Prelude = append(c.Prelude, rapid.SampledFrom([]string{"refuse-after", "refuse-before", "cancelled", "orphans", "orphans"}).Draw(rt, "prelude"))
+				c.Prelude = append(c.Prelude, rapid.SampledFrom([]string{"refuse-after", "refuse-before", "cancelled", "orphans", "orphans", "orphans-many"}).Draw(rt, "prelude"))
 			}
 		}
 		return c
